@@ -634,6 +634,21 @@ fn check_dag(rep: &mut OracleReport, d: &[DNode]) {
                     Ok(h) if h == want && c.position() as usize == b.len() => {}
                     other => rep.fail("stream_eq_def", format!("dag={} got={:?} pos={}", desc(), other.map(hex::encode).map_err(|e| err_kind(&e)), c.position())),
                 }
+                // the same object as the *second* one of a stream: the cursor starts at a non-zero
+                // position and other bytes follow (C22-7: buffer offsets relative to the start position)
+                {
+                    let mut buf: Vec<u8> = b[..b.len().min(3)].to_vec();
+                    buf.push(0x80);
+                    let start = buf.len();
+                    buf.extend_from_slice(&b);
+                    buf.extend_from_slice(&b);
+                    let mut c = Cursor::new(&buf[..]);
+                    c.set_position(start as u64);
+                    match tree_hash_from_stream(&mut c) {
+                        Ok(h) if h == want && c.position() as usize == start + b.len() => {}
+                        other => rep.fail("stream_eq_def", format!("dag={} cursor starting at {} got={:?} pos={}", desc(), start, other.map(hex::encode).map_err(|e| err_kind(&e)), c.position())),
+                    }
+                }
                 let mut c = Cursor::new(&b[..]);
                 match parse_triples(&mut c, true) {
                     Ok((r, Some(hs))) if !hs.is_empty() && hs[0] == want && hs.len() == r.len() && r.len() as u64 == ex.0 + ex.1 => {
